@@ -7,5 +7,11 @@ import (
 	_ "verif/harness/props/c16"
 	_ "verif/harness/props/c17"
 	_ "verif/harness/props/c18"
+	_ "verif/harness/props/c19"
+	_ "verif/harness/props/c24"
+	_ "verif/harness/props/c26"
+	_ "verif/harness/props/c27"
+	_ "verif/harness/props/c28"
+	_ "verif/harness/props/c36"
 	_ "verif/harness/props/c48"
 )
